@@ -15,6 +15,7 @@ import (
 
 // a client step on one connection: binary command, text command, or a clock advance
 type wStep struct {
+	Raw  []byte    `json:"r,omitempty"` // a ready-made 64-byte frame of another command type (INIT)
 	Bin  *hapi.Cmd `json:"b,omitempty"`
 	Text []string  `json:"t,omitempty"`
 	Tick int64     `json:"k,omitempty"`
@@ -22,6 +23,8 @@ type wStep struct {
 
 func (s wStep) String() string {
 	switch {
+	case s.Raw != nil:
+		return fmt.Sprintf("FRAME type%d", s.Raw[2])
 	case s.Bin != nil:
 		return s.Bin.String()
 	case s.Text != nil:
@@ -46,6 +49,8 @@ func c10BinAlphabet() []wStep {
 		// request willing to wait belongs to the leader's queue; with and without the wait-when-unlocked flag
 		{Bin: z(func() hapi.Cmd { c := L(0, 1, 4, 2, 10, 0, 0); c.Flag = 0x08; return c }())},
 		{Bin: z(func() hapi.Cmd { c := L(0, 1, 5, 0, 10, 0, 0); c.Flag = 0x08; return c }())},
+		// the client announces itself (INIT) in the middle of a connection
+		{Raw: func() []byte { b := make64(protocol.COMMAND_INIT); b[19], b[34] = 0x63, 0x31; return b }()},
 		{Tick: 1 * sec},
 	}
 }
@@ -110,6 +115,11 @@ func playWireSteps(addr string, steps []wStep, text bool) ([][]string, error) {
 	req := byte(0)
 	for _, st := range steps {
 		switch {
+		case st.Raw != nil:
+			req++
+			b := append([]byte{}, st.Raw...)
+			b[3] = req
+			_ = c.Send(b)
 		case st.Bin != nil:
 			req++
 			b := *st.Bin
@@ -273,7 +283,7 @@ func evalC10(c *Ctx, cs EnumCase) EnumResult {
 	for _, sq := range a.Seqs {
 		var steps []wStep
 		var names []string
-		if a.Kind != "follower-expiry" && a.Kind != "demoted-expiry" && a.Kind != "quit-leader-pending-ack" { // there the sequence holds parameters, not alphabet indices
+		if a.Kind != "follower-expiry" && a.Kind != "admin-text-mode" && a.Kind != "demoted-expiry" && a.Kind != "quit-leader-pending-ack" { // there the sequence holds parameters, not alphabet indices
 			for _, i := range sq {
 				steps = append(steps, alpha[i])
 				names = append(names, alpha[i].String())
@@ -375,6 +385,15 @@ func evalC10(c *Ctx, cs EnumCase) EnumResult {
 			if msg != "" {
 				vs = append(vs, explore.Violation{Sig: "C10:ex-leader-granted-after-quitting", Msg: msg})
 			}
+		case "admin-text-mode":
+			msg, e := runAdminTextMode(sq[0])
+			if e != "" {
+				return EnumResult{Err: e}
+			}
+			distinct[fmt.Sprint(sq)] = true
+			if msg != "" {
+				vs = append(vs, explore.Violation{Sig: "C10:outcome-differs-via-follower/admin-text-mode", Msg: msg})
+			}
 		case "follower-expiry":
 			msg, e := runFollowerExpiry(sq[0], len(sq) > 1 && sq[1] == 1)
 			if e != "" {
@@ -443,6 +462,46 @@ func runHeldStream(steps []wStep, text bool) (msg string, err string) {
 		after := cl.Nodes[1].Snapshot().UserString()
 		if before != after {
 			msg = fmt.Sprintf("the replication stream was held, yet the follower's holds changed from [%s] to [%s]", before, after)
+		}
+	})
+	if rt.Crash != nil {
+		err = "crash: " + rt.Crash.Value
+	}
+	return
+}
+
+// runAdminTextMode: a binary connection switches to the text form with ADMIN and goes on in text (variant picks the
+// text commands that follow); the leader and a follower must answer alike and keep the connection.
+func runAdminTextMode(variant int) (msg string, err string) {
+	texts := [][][]string{{{"PING"}}, {{"PING"}, {"PING"}}, {{"LOCK", "k1", "LOCK_ID", "a1", "TIMEOUT", "0", "EXPRIED", "5"}, {"UNLOCK", "k1", "LOCK_ID", "a1"}}, {{"SET", "x", "1"}, {"GET", "x"}}}[variant]
+	rt := vrt.Run(vrt.Options{MaxPoints: 400_000_000}, func() {
+		cl, e := StartLeaderFollowers(1, nil)
+		if e != nil {
+			err = e.Error()
+			return
+		}
+		var got [2][]string
+		for i := 0; i < 2; i++ {
+			c, e := wire.Dial(cl.Addrs[i])
+			if e != nil {
+				err = e.Error()
+				return
+			}
+			_ = c.Send(make64(protocol.COMMAND_PING))
+			c.TakeBin()
+			_ = c.Send(make64(protocol.COMMAND_ADMIN))
+			rs := c.TakeBin()
+			got[i] = append(got[i], fmt.Sprintf("admin:%d replies", len(rs)))
+			for _, t := range texts {
+				_ = c.Send(wire.Resp(t...))
+				got[i] = append(got[i], strings.Join(c.TakeText(), "|"))
+			}
+			vrt.AdvanceTo(vrt.Elapsed() + 200*ms)
+			c.Pump()
+			got[i] = append(got[i], fmt.Sprintf("closed=%v", c.Closed))
+		}
+		if fmt.Sprint(got[0]) != fmt.Sprint(got[1]) {
+			msg = fmt.Sprintf("a binary connection that switches to text with ADMIN and sends %v: the leader answers %q, the follower %q", texts, got[0], got[1])
 		}
 	})
 	if rt.Crash != nil {
@@ -762,6 +821,9 @@ func c10Cases(quick bool) []EnumCase {
 			continue
 		}
 		out = append(out, mkCase(fmt.Sprintf("follower-expiry/E%d", E), c10Arg{Kind: "follower-expiry", Seqs: [][]int{{E}}}))
+	}
+	for v := 0; v < 4; v++ {
+		out = append(out, mkCase(fmt.Sprintf("admin-text-mode/%d", v), c10Arg{Kind: "admin-text-mode", Seqs: [][]int{{v}}}))
 	}
 	// ... and holds given in milliseconds (below 3000 ms they are ended by the millisecond timer, above by the second wheel)
 	for _, E := range []int{400, 1200, 2999, 3500} {
